@@ -46,6 +46,7 @@ class ConcreteCtx(CCtx):
 
     def __init__(self, values):
         self.values = values
+        self.log = {}
         self.path = Path()
         self.dim_override = {}
         self.mode = "concrete"
@@ -113,6 +114,7 @@ class RandomCtx(ConcreteCtx):
         self.rng = rng
         self.con = con
         self.log = {}
+        self.values = {}
 
     def _rr(self):
         r = dict(self.con.dim_ranges)
